@@ -4,3 +4,6 @@ package statecache
 
 // verifYield is a no-op unless built with the verif tag (see verif_hook_on.go).
 func verifYield(string) {}
+
+// verifPerKeyMap is a no-op unless built with the verif tag (see verif_hook_on.go).
+func verifPerKeyMap(interface{}) {}
